@@ -157,6 +157,7 @@ EvidentOK(o, xs, fl) ==
   /\ (o = "mul2" => ~(fl[1].s /\ fl[2].s /\ xs[1].c = "fin" /\ xs[2].c = "fin" /\ RMul(xs[1].v, xs[2].v) = ROne))
   /\ (o = "pow" => /\ (IsAny(xs[2]) => fl[2].e)
                    /\ (IsAny(xs[1]) => ~fl[2].q)          \* 0 ** quantity, nan ** quantity: SymPy itself collapses it
+                   /\ (fl[2].q => ~(xs[1].c = "fin" /\ RAbs(xs[1].v) = ROne /\ ~fl[1].s))   \* so is 1 ** quantity
                    /\ (fl[2].q => (fl[2].lf /\ ~IsAny(xs[2])) \/ PowRefused(xs[1], xs[2])))
 
 ResultFlags(o, xs, fl, res) ==
